@@ -147,6 +147,9 @@ def rq_api(case, ctx):
                 out[-1]["joined"] = [[names.index(str(a)), int(b), int(cc), names.index(str(d)), int(e), int(f), iv(v)]
                                      for a, b, cc, d, e, f, v in zip(pj["chrom1"], pj["start1"], pj["end1"], pj["chrom2"],
                                                                     pj["start2"], pj["end2"], pj["count"])]
+                # the joined records with their labels kept (ignore_index=False)
+                pj1 = c.matrix(balance=False, as_pixels=True, join=True, ignore_index=False, chunksize=chunk)[i0:i1, j0:j1]
+                out[-1]["pidx_joined"] = [int(x) for x in pj1.index]
         return out
     return {"q": _with_cooler(case, path, run)}
 
@@ -233,7 +236,11 @@ def rq_balanced(case, ctx):
             sp = c.matrix(balance=bal, sparse=True, chunksize=chunk, **kw)[i0:i1, j0:j1]
             de = c.matrix(balance=bal, sparse=False, chunksize=chunk, **kw)[i0:i1, j0:j1]
             p0 = c.matrix(balance=bal, as_pixels=True, chunksize=chunk, **kw)[i0:i1, j0:j1]
+            p1 = c.matrix(balance=bal, as_pixels=True, ignore_index=False, chunksize=chunk, **kw)[i0:i1, j0:j1]
             out.append({
+                "pixels_labelled": [[int(a), int(b), int(x), _scaled(y)] for a, b, x, y in
+                                    zip(p1["bin1_id"], p1["bin2_id"], p1["count"], p1["balanced"])],
+                "pidx": [int(x) for x in p1.index],
                 "w": w,
                 "sparse": [[int(r), int(cc), _scaled(x)] for r, cc, x in zip(sp.row, sp.col, sp.data)],
                 "dense": [[_scaled(x) for x in row] for row in de],
